@@ -18,8 +18,8 @@ mod ax {
 broadcast use {vstd::std_specs::hash::group_hash_axioms, ax::axiom_string_obeys_key_model};
 
 /// stand-ins: the verified text never inspects prompt records or checkpoints
-pub struct PromptRecord { pub _opaque: () }
-pub struct Checkpoint { pub _opaque: () }
+#[verifier::external_body] pub struct PromptRecord { _o: () }
+#[verifier::external_body] pub struct Checkpoint { _o: () }
 //#item file=src/authorship/attribution_tracker.rs kind=struct name=LineAttribution
 pub struct LineAttribution {
     pub start_line: u32,
